@@ -32,8 +32,8 @@ OWN = {
 
 REPORTS_GATE = ["r:wmonth:orig", "r:weast:orig", "x:wmonth"]
 REPORTS_SPAN = ["r:wyear:orig", "r:wpart:orig", "r:wmonth:orig", "r:wweek:orig", "r:wday:orig", "r:wweek:absent"]
-REPORTS_OBS = ["r:wyear:orig", "r:wyear:x3", "r:wyear:shuffled", "r:wyear:partnan", "r:wyear:allnan", "r:wyear:absent",
-               "r:wpart:orig", "r:wpart:absent", "r:wpart:partnan"]
+REPORTS_OBS = ["r:wyear:orig", "r:wyear:x3", "r:wyear:shuffled", "r:wyear:partnan", "r:wyear:partzero", "r:wyear:allnan", "r:wyear:absent",
+               "r:wpart:orig", "r:wpart:absent", "r:wpart:partnan", "r:wpart:partzero"]
 
 SCENARIOS = {
     # name: template, baselines, reports, slots, ignore flags
